@@ -1487,6 +1487,10 @@ class World:
             # change time are kept, so that every later use of the item meets the damage
             try:
                 item = pickle.loads(data)
+                if type(item) is not pc._NodeCacheItem:
+                    # (an earlier corruption may have left e.g. the pickle of a *class*: setting
+                    # attributes on that would be the harness damaging parso - soak, seed 27000286)
+                    raise ValueError('not an item')
                 variant = op.get('a', 0) % 6
                 if variant == 0:
                     item.lines = None
